@@ -19,6 +19,17 @@
 (*           two: TLC produces the schedule.  This is what the thread      *)
 (*           campaign of the C18 check must be able to hit in the real     *)
 (*           code (it does: seeded change C18-m2).                         *)
+(* Two further modes are the other designs independent authors seeded:     *)
+(*   "tls_scratch": a per-thread scratch offset that a query assumes to be *)
+(*           zero on entry and that the early "None" exit forgets to       *)
+(*           reset (C18-m3): no thread ever sees another thread's state,   *)
+(*           yet answers depend on the thread's own history - Linear fails *)
+(*           with a single thread;                                         *)
+(*   "lazy_once": a table built by the first query behind a once-cell      *)
+(*           (C18-m4): every answer is right under every interleaving      *)
+(*           (Linear holds), but a query writes shared state - the value   *)
+(*           (and its serialized form) changes: NoSharedWrite fails.  Only *)
+(*           the purity half of the check can see this class.              *)
 (***************************************************************************)
 EXTENDS Clauses, TLC
 
@@ -85,11 +96,35 @@ WritePos(t) ==
     /\ Finish(t, loc[t].ans)
     /\ UNCHANGED <<loc, memoNext>>
 
-Next == \E t \in Threads : StepPure(t) \/ StepAtomic(t) \/ ReadNext(t) \/ ReadPos(t) \/ WriteNext(t) \/ WritePos(t)
+\* per-thread scratch offset, left dirty by the early exit
+StepTls(t) ==
+    /\ MemoMode = "tls_scratch" /\ ~Done(t) /\ pc[t].st = "start"
+    /\ LET off == IF loc[t].nx >= 0 THEN loc[t].nx ELSE 0
+           a == Answer(K(t) + off)
+       IN  /\ Finish(t, a)
+           /\ loc' = [loc EXCEPT ![t].nx = IF a = NONE THEN 1 ELSE 0]
+    /\ UNCHANGED <<memoNext, memoPos>>
+
+\* table built on first use behind a once-cell: check, then (one thread) build
+LazyCheck(t) ==
+    /\ MemoMode = "lazy_once" /\ ~Done(t) /\ pc[t].st = "start"
+    /\ IF memoNext = 1
+       THEN Finish(t, Answer(K(t))) /\ UNCHANGED <<loc, memoNext, memoPos>>
+       ELSE pc' = [pc EXCEPT ![t].st = "build"] /\ UNCHANGED <<loc, res, memoNext, memoPos>>
+LazyBuild(t) ==
+    /\ MemoMode = "lazy_once" /\ pc[t].st = "build"
+    /\ memoNext' = 1
+    /\ Finish(t, Answer(K(t)))
+    /\ UNCHANGED <<loc, memoPos>>
+
+Next == \E t \in Threads : \/ StepPure(t) \/ StepAtomic(t) \/ ReadNext(t) \/ ReadPos(t) \/ WriteNext(t) \/ WritePos(t)
+                          \/ StepTls(t) \/ LazyCheck(t) \/ LazyBuild(t)
 Spec == Init /\ [][Next]_vars
 
 \* C18: under every interleaving every thread obtains exactly the answers a single thread obtains
 Linear == \A t \in Threads : \A j \in 1..Len(res[t]) : res[t][j] = Answer(Scan[j])
 \* queries never modify the (abstract) value: the only state a "none" query touches is its own
 Pure == MemoMode = "none" => memoNext = -1 /\ memoPos = -1
+\* the same demand on every design: a query writes nothing another query can read
+NoSharedWrite == memoNext = -1 /\ memoPos = -1
 =============================================================================
